@@ -67,8 +67,11 @@ BOOL_OPTS = ["submodules", "try_relative_path", "find_stubs_package", "store_sou
 EXTERNAL = [None, False, True]
 FAULTS = ["raise Exception('boom')", "import surely_missing_dependency_xyz", "import sys; sys.exit(7)", "raise KeyboardInterrupt()",
           # not failures, but the imported code tampering with the very state that has to be restored (the import goes on)
-          "import sys; sys.path = ['/rebound-by-analysed-code'] + sys.path", "import sys; sys.path.insert(0, '/inserted-by-analysed-code')"]
-FAULT_NAMES = ["exception", "missing-dependency", "sys-exit", "keyboard-interrupt", "rebinds-sys-path", "mutates-sys-path"]
+          "import sys; sys.path = ['/rebound-by-analysed-code'] + sys.path", "import sys; sys.path.insert(0, '/inserted-by-analysed-code')",
+          # the same outcomes, but LATER: not while the module is imported, while its members are walked (PEP 562 module __getattr__ / __dir__, as lazily importing packages do)
+          "def __getattr__(name):\n    if name == 'lazy_attr':\n        import sys\n        sys.exit(3)\n    raise AttributeError(name)\ndef __dir__():\n    return [*globals(), 'lazy_attr']",
+          "def __getattr__(name):\n    if name == 'lazy_attr':\n        import surely_missing_dependency_xyz\n    raise AttributeError(name)\ndef __dir__():\n    return [*globals(), 'lazy_attr']"]
+FAULT_NAMES = ["exception", "missing-dependency", "sys-exit", "keyboard-interrupt", "rebinds-sys-path", "mutates-sys-path", "lazy-sys-exit", "lazy-missing-dependency"]
 FPKG = ["fp/__init__.py", "fp/a.py", "fp/sub/__init__.py", "fp/sub/b.py"]
 FMOD = ["fp", "fp.a", "fp.sub", "fp.sub.b"]
 
@@ -92,10 +95,19 @@ def all_cases(tier):
                 for mode in ("allow", "force"):
                     for target in ("fp", "fp.sub.b"):
                         yield ("B", tuple(zip(positions, kinds)), mode, target)
+                        if k <= 1 or all(kd in (4, 5) for kd in kinds):
+                            # the loader's DEFAULT search paths (a copy of sys.path, which holds the project directory) instead of explicit ones
+                            yield ("B", tuple(zip(positions, kinds)), mode, target, "default-search-paths")
 
 
 def shards(tier):
     return list(range(NSHARDS))
+
+
+def sandbox_suppress():
+    import contextlib
+
+    return contextlib.suppress(ValueError)
 
 
 def _snapshot():
@@ -188,7 +200,8 @@ def run_case(griffe, acc, case):
             finally:
                 os.chdir(cwd)
         else:
-            _, faults, mode, target = case
+            _, faults, mode, target = case[:4]
+            default_paths = len(case) > 4
             fd = dict(faults)
             files = {}
             for i, rel in enumerate(FPKG):
@@ -202,18 +215,32 @@ def run_case(griffe, acc, case):
                 files[rel] = body + f"v{i} = {i}\n"
             src = os.path.join(d, "src")
             sandbox.write_tree(src, files)
-            cd = {"case": ["B", [list(f) for f in faults], mode, target]}
+            cd = {"case": ["B", [list(f) for f in faults], mode, target] + (["default-search-paths"] if default_paths else [])}
+            if default_paths:
+                sys.path.insert(0, src)
             before = _snapshot()
             ctx = "+".join(f"{FAULT_NAMES[k]}@{'top' if p == 0 else 'submodule' if p in (1, 3) else 'subpackage'}" for p, k in faults) or "no-fault"
+            if default_paths:
+                ctx += "/default-search-paths"
             outcome = "ok"
             try:
-                griffe.load(target, search_paths=[src], allow_inspection=True, force_inspection=(mode == "force"))
+                if default_paths:
+                    griffe.load(target, allow_inspection=True, force_inspection=(mode == "force"), try_relative_path=False)
+                else:
+                    griffe.load(target, search_paths=[src], allow_inspection=True, force_inspection=(mode == "force"))
             except (ImportError, griffe.LoadingError) as e:
                 outcome = "refused:" + type(e).__name__
+            except KeyError as e:
+                # the requested module was skipped (its inspection failed after a successful import): the lookup of the requested object fails.
+                # Not an import-path matter, and not the analysed code's own exception: accepted as a refusal.
+                outcome = "refused:KeyError"
             except BaseException as e:  # noqa: BLE001
                 outcome = "escaped:" + type(e).__name__
                 acc.violation(f"exctype/{type(e).__name__}/{mode}/{ctx}", f"load({target!r}, {mode} inspection) let {type(e).__name__} escape ({e!r})", cd, None, size=len(faults) + 1)
             _judge_state(acc, cd, before, sroot, {"fp"}, len(faults) + 1, f"{mode}/{ctx}", allow_modules=True)
+            if default_paths:
+                with sandbox_suppress():
+                    sys.path.remove(src)
             acc.case(cd, outcome=f"fault/{mode}:{outcome}", nontrivial=True)
             acc.observe(outcome)
 
